@@ -48,8 +48,9 @@ RespondReasons(rp) ==
         anyFrom == {r \in 1..Len(reqs) : reqs[r].sock = rp.sock}
     IN  (IF rp.leak THEN {"leak"} ELSE {})
         \cup
-        (IF rp.greased
-         THEN (IF cands = {} THEN {"unsolicited"} ELSE {})     \* a fault-injected reply still answers someone
+        (IF rp.greased /\ rp.fails
+         THEN (IF cands = {} THEN {"unsolicited"} ELSE {})     \* a fault-injected reply still answers someone; one that
+                                                               \* does NOT fail verification is held to the honest standard (Grease.tla Dichotomy)
          ELSE IF good # {} THEN
                 (IF \A r \in good : rp.len > reqs[r].len THEN {"amplification"} ELSE {})
               ELSE IF anyFrom = {} THEN {"to_wrong_sender"}
